@@ -60,6 +60,11 @@ STR, NUM, BOOL, VOID = ["prim", "string"], ["prim", "number"], ["prim", "boolean
 UNIT = ["tuple"]
 LEAVES = [STR, NUM, BOOL, VOID, UNIT, ["custom", "User"], ["custom", "Status"], ["custom", "DateTime"]]
 MAPPINGS = {"DateTime": "string", "Decimal": "number", "Flag": "boolean"}
+# the README maps Rust types "to TypeScript types": targets beyond the three primitives (the schema side has a
+# z.custom<T> branch for them); MaybeId (a union) only where no array suffix can follow it
+MAPPINGS_WIDE = {"Value": "unknown", "Bytes": "number[]", "Stamp": "Date", "Headers": "Record<string, string>",
+                 "Anything": "any", "Pair": "[string, number]", "MaybeId": "string | null"}
+WIDE_LEAVES = [["custom", n] for n in MAPPINGS_WIDE if n != "MaybeId"]
 POSITIONS = {
     "vec": lambda t: ["arr", t],
     "set": lambda t: ["set", t],
@@ -112,10 +117,54 @@ def mentions(t, name):
     return any(mentions(x, name) for x in t[1:] if isinstance(x, list))
 
 
+def alike_cases(tier, rng):
+    """several parameters per command and several commands whose types render alike in one renderer but
+    not in another (Vec / HashSet of the same element for the Zod visitor; T / Result<T>; Option or not),
+    in every order; plus the base type of the case drawn from the same family"""
+    out = []
+    n = 350 if tier == "quick" else 4000
+    elems = [STR, NUM, BOOL, ["custom", "User"], ["tuple", STR, NUM], ["map", STR, NUM], ["map", NUM, NUM]]
+    for i in range(n):
+        es = rng.sample(elems, rng.randint(1, 2))
+        fam = []
+        for e in es:
+            fam += [["arr", e], ["set", e], ["arr", ["arr", e]], ["arr", ["set", e]], ["set", ["arr", e]], ["map", STR, ["arr", e]],
+                    ["map", STR, ["set", e]], ["tuple", ["arr", e], ["set", e]], ["tuple", ["set", e], ["arr", e]]]
+            if rng.random() < 0.3:
+                fam += [["res", ["arr", e]], ["opt", ["arr", e]], ["opt", ["set", e]], e]
+        extra = []
+        names = ["a", "b", "c2", "d2", "e2"]
+        for k in range(rng.randint(1, 3)):
+            ps = [[names[j], rng.choice(fam), False] for j in range(rng.randint(2, 4))]
+            for p in ps:
+                p[2] = p[1][0] == "opt"
+            extra.append(["x%d" % k, ps])
+        out.append({"ts": rng.choice(fam), "extra": extra})
+    return out
+
+
+def wide_mapping_cases(tier, rng):
+    out = []
+    n = 300 if tier == "quick" else 3000
+    for i in range(n):
+        if i % 6 == 0:
+            leaf = ["custom", "MaybeId"]
+            t = rng.choice([leaf, ["map", STR, leaf], ["tuple", leaf, NUM], ["tuple", STR, leaf], ["res", leaf]])
+        else:
+            leaf = rng.choice(WIDE_LEAVES)
+            f = rng.choice(list(POSITIONS.values()) + [lambda x: x])
+            g = rng.choice(list(POSITIONS.values()) + [lambda x: x])
+            t = g(f(leaf))
+        out.append({"ts": t, "mappings": dict(MAPPINGS, **MAPPINGS_WIDE)})
+    return out
+
+
 def type_cases(tier, rng):
     cases = []
     for t in spines(2 if tier == "quick" else 3):
         cases.append({"ts": t})
+    cases += alike_cases(tier, rng)
+    cases += wide_mapping_cases(tier, rng)
     # weights keep the recorded classes (set, result, option) a minority of the random part
     w_clean = {"arr": 4, "map": 3, "tuple": 3}
     w_all = {"arr": 3, "map": 2, "tuple": 2, "set": 1, "opt": 2, "res": 0.5}
@@ -137,7 +186,9 @@ def type_cases(tier, rng):
             ks = rng.sample(ODD_KEYS, 3)
             c["keys"] = [k if rng.random() < 0.7 else None for k in ks] + [rng.choice(ODD_LITS) if rng.random() < 0.5 else None]
         uses_mapped = any(mentions(t, n) for n in MAPPINGS)
-        c["mappings"] = dict(MAPPINGS) if (uses_mapped and rng.random() < 0.7) else None
+        if "mappings" not in c:
+            c["mappings"] = dict(MAPPINGS) if (uses_mapped and rng.random() < 0.7) else None
+        c.setdefault("extra", None)
         out.append(c)
     return out
 
@@ -176,7 +227,8 @@ def eval_types(cases):
             continue
         m = sorted((c.get("mappings") or {}).items())
         keys = [k if k is not None else d for k, d in zip(c.get("keys") or [None] * 4, DEFAULT_KEYS)]
-        sexps.append(sx([[list(kv) for kv in m], c["ts"], c["opt"], c["enum"], bool(c.get("unit")), o["chan_ts"], keys, o["strings"],
+        extra = [[x[0][:1].upper() + x[0][1:], [[p[0], bool(p[2]), p[1]] for p in x[1]]] for x in (c.get("extra") or [])]
+        sexps.append(sx([[list(kv) for kv in m], c["ts"], c["opt"], c["enum"], bool(c.get("unit")), o["chan_ts"], keys, extra, o["strings"],
                          o["plain_mod"], o["zod_mod"]]))
         idx.append(c["id"])
     res = dict(zip(idx, vlib.run_runner("c10-tcase", sexps)))
@@ -185,6 +237,7 @@ def eval_types(cases):
         case = {k: c[k] for k in ("ts", "opt", "enum", "mappings")}
         case["unit"] = bool(c.get("unit"))
         case["keys"] = c.get("keys")
+        case["extra"] = c.get("extra")
         if o.get("skipped"):
             continue
         if "panic" in o:
@@ -219,7 +272,7 @@ def judge(case, o, strings, s_or, proj, allowed, nontrivial=True):
         if same_iface != "true":
             tags.append("zod-interface-type-differs")
         tags += list(ftags) + list(ptags)
-    p_ok, z_ok, p_eq, z_eq, model_tags, verdict, p_allowed, p_dom = proj
+    p_ok, z_ok, p_eq, z_eq, model_tags, verdict, p_allowed, p_dom, key_allowed = proj
     if p_dom != "true":
         raise vlib.BuildError("case outside the domain: %s" % case)
     if p_ok != "true" or z_ok != "true":
@@ -227,7 +280,7 @@ def judge(case, o, strings, s_or, proj, allowed, nontrivial=True):
     if p_eq != "true" or z_eq != "true":
         corr = False
         det["items_equal"] = {"plain": p_eq, "zod": z_eq}
-    vt, vdet = verdict
+    vt, vdet, vkeys = verdict
     tags += list(vt)
     tags = sorted(set(tags))
     if sorted(set(model_tags)) != sorted(set(vt)):
@@ -236,13 +289,20 @@ def judge(case, o, strings, s_or, proj, allowed, nontrivial=True):
     allowed_all = set(p_allowed) | set(allowed or [])
     ok = not tags
     kf = None
-    if tags and all(t in allowed_all for t in tags):
+    # a finding is excused only by the Rust type written at the very key where it shows (Item.key):
+    # z.set at a key whose type is a Vec is a violation even if another member of the project is a set
+    kal = {k: set(v) for k, v in key_allowed}
+    per_key_ok = all(set(kt) <= kal.get(k, set()) for k, kt in vkeys)
+    module_tags = set(vt)
+    seen_at_keys = set(t for _, kt in vkeys for t in kt)
+    if tags and all(t in allowed_all for t in tags) and per_key_ok and module_tags <= seen_at_keys:
         for t, k in TAG_KF:
             if t in tags:
                 kf = k
                 break
     det["tags"] = tags
     det["per_item"] = vdet
+    det["per_key"] = vkeys
     if not ok or not corr:
         det["impl"] = {k: o.get(k) for k in ("strings", "plain_mod", "zod_mod") if k in o}
     return Outcome(case, corr, ok, kf, det, nontrivial)
@@ -424,9 +484,50 @@ def analysis_of(case, plain_text):
     return types, cmds
 
 
+def gen_alike_project(rng):
+    """commands with many parameters whose Rust types differ while one of the renderers prints them alike:
+    Vec / HashSet / BTreeSet of the same element, all numeric widths, Option or not, String / &str, map key
+    types; shuffled, spread over one or two files (file order then source order is the generation order)"""
+    P, Ref = projgen.P, projgen.Ref
+    widths = ["i8", "i16", "i32", "i64", "u8", "u16", "u32", "u64", "usize", "f32", "f64"]
+    elems = [lambda: P(rng.choice(widths)), lambda: P("String"), lambda: Ref(P("str")), lambda: P("bool")]
+    def one():
+        e = rng.choice(elems)()
+        c = rng.choice(["Vec", "HashSet", "BTreeSet", "Vec", "OptVec", "OptSet", "MapS", "MapN", "VecVec", "VecSet", "plain"])
+        if c in ("Vec", "HashSet", "BTreeSet"):
+            return P(c, e)
+        if c == "OptVec":
+            return P("Option", P("Vec", e))
+        if c == "OptSet":
+            return P("Option", P("HashSet", e))
+        if c == "MapS":
+            return P("HashMap", P("String"), e)
+        if c == "MapN":
+            return P(rng.choice(["HashMap", "BTreeMap"]), P(rng.choice(["i32", "u64"])), e)
+        if c == "VecVec":
+            return P("Vec", P("Vec", e))
+        if c == "VecSet":
+            return P("Vec", P("BTreeSet", e))
+        return e
+    files = {"src/lib.rs": []}
+    if rng.random() < 0.5:
+        files["src/a_first.rs"] = []
+    names = rng.sample(FN_NAMES, rng.randint(2, 4))
+    pn = ["ids", "offsets", "tags", "labels", "seen", "weights", "flags", "extra_keys"]
+    for fn in names:
+        ps = [{"name": n, "ty": one()} for n in rng.sample(pn, rng.randint(2, 5))]
+        rng.choice(list(files.values())).append(
+            {"kind": "fn", "name": fn, "attrs": [["tauri", "command"]], "async": rng.random() < 0.5, "vis": "pub",
+             "params": ps, "ret": None, "body": []})
+    files = {k: v for k, v in files.items() if v}
+    return {"files": files, "config": {}}
+
+
 def project_cases(tier, rng):
     n = 120 if tier == "quick" else 1500
     cases = []
+    for i in range(n // 3):
+        cases.append({"id": "alike-%d" % i, "project": gen_alike_project(rng), "clean": False})
     for i in range(n):
         clean = i % 10 < 6
         case, meta = projgen.gen_graph_project(
